@@ -111,19 +111,27 @@ func compareSelect(ctx context.Context, r *rt.Rec, q *bq.Query, data bq.Data, cl
 // memoFor keeps one memoizing store per data set for as long as the data set is
 // in use, so that consecutive statements share its caches.
 type memoFor struct {
-	st map[string]storage.Store
+	st map[string]memoEntry
+}
+
+// memoEntry keeps the data set alive next to its store: the key is the address
+// of the data set, which the runtime may give to another data set once the old
+// one has been collected.
+type memoEntry struct {
+	data bq.Data
+	st   storage.Store
 }
 
 func (m *memoFor) get(ctx context.Context, data bq.Data) storage.Store {
 	k := fmt.Sprintf("%p", data)
-	if st, ok := m.st[k]; ok {
-		return st
+	if e, ok := m.st[k]; ok {
+		return e.st
 	}
 	if m.st == nil || len(m.st) >= 4 {
-		m.st = map[string]storage.Store{}
+		m.st = map[string]memoEntry{}
 	}
-	m.st[k] = memoization.New(bq.NewStore(ctx, data))
-	return m.st[k]
+	m.st[k] = memoEntry{data, memoization.New(bq.NewStore(ctx, data))}
+	return m.st[k].st
 }
 
 // nearMiss: the data holds a triple that matches all but one component of
